@@ -1659,9 +1659,13 @@ package goatlang
 //@ func (*token).Unquote
 //@   property C15 C13
 //@   trusted
+//@ -- (*token).String recurses over the children; with no nil child (token.Append rejects them)
+//@ -- it cannot fault, and a node with children renders as "(" text " " children ")"
 //@ func (*token).String
 //@   property C03
 //@   trusted
+//@   nopanic
+//@   ensures len(t.Tokens) >= 1 ==> len(result) >= 3 + len(t.Text)
 
 // ---------------------------------------------------------------------------------------------
 // C10: script maps. Abstract view: data (a Go map) + keys (insertion-ordered, lazily compacted).
@@ -2687,3 +2691,12 @@ package goatlang
 //@   invariant p != nil && res != nil
 //@ func parse handler
 //@   assume p.Token != nil
+//@
+//@ func (*VM).treeDump
+//@   property C03
+//@   requires forall j int :: 0 <= j && j < len(tree) ==> tree[j] != nil && len(tree[j].Tokens) >= 1 && len(tree[j].Text) >= 1
+//@   modifies *
+//@   nopanic
+//@ func (*VM).treeDump loop 0
+//@   invariant true
+//@   assume forall j int :: 0 <= j && j < len(tree) ==> tree[j] != nil && len(tree[j].Tokens) >= 1 && len(tree[j].Text) >= 1
